@@ -12,6 +12,7 @@ import (
 	"crypto/sha256"
 	"errors"
 	"fmt"
+	"reflect"
 	"strings"
 
 	"golang.org/x/crypto/hkdf"
@@ -110,6 +111,7 @@ type parser struct {
 	kind   string                                         // CSplit header "CSplit # kind [params]"
 	blocks [][]byte
 	at     []int
+	proto  bool // also mutate at the protobuf wire level
 }
 
 func drive(o vh.Opts, r *vh.Rng, rep *vh.Report, cb *caseBuf, p parser, nflip int) {
@@ -121,7 +123,11 @@ func drive(o vh.Opts, r *vh.Rng, rep *vh.Report, cb *caseBuf, p parser, nflip in
 		return
 	}
 	nmodel := 0
-	for _, x := range mutations(r, p.valid, o.Thorough, nflip, p.blocks, p.at) {
+	muts := mutations(r, p.valid, o.Thorough, nflip, p.blocks, p.at)
+	if p.proto {
+		muts = append(muts, protoMutations(p.valid, 1)...)
+	}
+	for _, x := range muts {
 		var err error
 		pan, msg := vh.Try(func() { err = p.run(append([]byte{}, x.b...)) })
 		verdict := "err"
@@ -134,7 +140,11 @@ func drive(o vh.Opts, r *vh.Rng, rep *vh.Report, cb *caseBuf, p parser, nflip in
 		}
 		rep.Count(p.name+"/"+vh.Hex(x.b), cls != 0 && len(x.b) > 0)
 		rep.Dist("composite:" + p.name + ":" + x.class + ":" + verdict)
-		if pan {
+		if pan && strings.HasPrefix(msg, "oracle:") {
+			rep.Fail(failKey(p.name, "accepted-value-unusable"), "the parser accepted a malformed message as a value that cannot be used: "+msg,
+				map[string]interface{}{"parser": p.name, "class": x.class, "input": describe(x.b), "why": msg})
+			cls = 98
+		} else if pan {
 			rep.Fail(failKey(p.name, "panics"), "parsing a malformed message panicked: "+msg,
 				map[string]interface{}{"parser": p.name, "class": x.class, "input": describe(x.b), "panic": msg})
 			cls = 98
@@ -580,13 +590,23 @@ func vssDeals(o vh.Opts, r *vh.Rng, rep *vh.Report, cb *caseBuf, nflip int) {
 				if err := dl.Unmarshal(b, suite); err != nil {
 					return err
 				}
-				// an accepted deal must be usable: its share value takes part in arithmetic, and it re-marshals
-				if dl.SecShare != nil {
-					suite.Scalar().Add(dl.SecShare.V, dl.SecShare.V)
+				// an accepted deal holds no nil group element and is usable: its share value takes part
+				// in arithmetic, its commitments encode and evaluate, and it re-marshals
+				if w := nilInside(reflect.ValueOf(dl), "Deal", 0); w != "" {
+					panic("oracle: accepted deal is not usable: " + w)
+				}
+				suite.Scalar().Add(dl.SecShare.V, dl.SecShare.V)
+				for _, c := range dl.Commitments {
+					if _, err := c.MarshalBinary(); err != nil {
+						return err
+					}
+				}
+				if len(dl.Commitments) > 0 {
+					share.NewPubPoly(suite, suite.Point().Base(), dl.Commitments).Eval(dl.SecShare.I)
 				}
 				_, err := dl.Marshal()
 				return err
-			}}, nflip*2)
+			}, proto: true}, nflip*2)
 		drive(o, r, rep, cb, parser{name: "vss.pedersen.ProcessEncryptedDeal(plaintext-mutated)", valid: plain,
 			run: func(b []byte) error {
 				v, err := pvss.NewVerifier(suite, vsec[idx], dealerPub, vpub)
@@ -602,7 +622,7 @@ func vssDeals(o vh.Opts, r *vh.Rng, rep *vh.Report, cb *caseBuf, nflip int) {
 					return errors.New("complaint")
 				}
 				return err
-			}}, nflip)
+			}, proto: true}, nflip)
 		ed, err := d.EncryptedDeal(idx)
 		if err != nil {
 			panic(err)
@@ -653,15 +673,22 @@ func vssDeals(o vh.Opts, r *vh.Rng, rep *vh.Report, cb *caseBuf, nflip int) {
 				if err := dl.Unmarshal(b, suite); err != nil {
 					return err
 				}
-				if dl.SecShare != nil {
-					suite.Scalar().Add(dl.SecShare.V, dl.SecShare.V)
+				if w := nilInside(reflect.ValueOf(dl), "Deal", 0); w != "" {
+					panic("oracle: accepted deal is not usable: " + w)
 				}
-				if dl.RndShare != nil {
-					suite.Scalar().Add(dl.RndShare.V, dl.RndShare.V)
+				suite.Scalar().Add(dl.SecShare.V, dl.SecShare.V)
+				suite.Scalar().Add(dl.RndShare.V, dl.RndShare.V)
+				for _, c := range dl.Commitments {
+					if _, err := c.MarshalBinary(); err != nil {
+						return err
+					}
+				}
+				if len(dl.Commitments) > 0 {
+					share.NewPubPoly(suite, suite.Point().Base(), dl.Commitments).Eval(dl.SecShare.I)
 				}
 				_, err := dl.Marshal()
 				return err
-			}}, nflip*2)
+			}, proto: true}, nflip*2)
 		// context = XOF("vss-dealer") absorbing dealer || "vss-verifiers" || verifiers, 128 bytes
 		hx := suite.XOF([]byte("vss-dealer"))
 		dealerPub.MarshalTo(hx)
@@ -686,7 +713,7 @@ func vssDeals(o vh.Opts, r *vh.Rng, rep *vh.Report, cb *caseBuf, nflip int) {
 					return errors.New("complaint")
 				}
 				return err
-			}}, nflip)
+			}, proto: true}, nflip)
 		ed, err := d.EncryptedDeal(idx)
 		if err != nil {
 			panic(err)
